@@ -110,9 +110,19 @@ class Engine:
         rec = recorder.Recorder(rel) if attach else None
         return rel, rec
 
+    def load(self, rel):
+        """A load_data() call in the middle of a history: part of the inputs (cachemodel.load_keys) handed over again,
+        with the values they already have (so that every later result is still comparable with a fresh instance)."""
+        from .cachemodel import load_keys
+        sim = {k: [np.zeros_like(self.inputs[k]), self.inputs[k].copy()] for k in load_keys(self.presentation)}
+        rel.load_data(sim, 1)
+
     def do(self, rel, rec, req):
         if req == "!freeze":
             rel.freeze_data()
+            return None
+        if req == "!load":
+            self.load(rel)
             return None
         if req.startswith("call:"):
             if rec is not None:
@@ -180,8 +190,23 @@ class Engine:
         try:
             for pos, req in enumerate(history):
                 ev0 = len(rec.events)
-                if req == "!freeze":
-                    rel.freeze_data()
+                if req in ("!freeze", "!load"):
+                    if req == "!freeze":
+                        rel.freeze_data()
+                    else:
+                        before = set(dict.keys(rel.data))
+                        self.load(rel)
+                        # C03: what was frozen is still there, and untouched unless it is part of the loaded dictionary
+                        for k in frozen0:
+                            if k not in dict.keys(rel.data):
+                                findings.append(("C03", {"clause": "FrozenNeverEvicted", "by": "load_data", "key_class": "input" if k in in_digest else "computed"},
+                                                 f"frozen entry {k!r} was removed by a load_data() call that does not carry it (history {history[:pos + 1]})",
+                                                 dict(setting, pos=pos, evicted=k)))
+                            elif digest(dict.__getitem__(rel.data, k)) != frozen_digest[k]:
+                                findings.append(("C03", {"clause": "FrozenNeverAltered", "by": "load_data", "key": k},
+                                                 f"frozen entry {k!r} was altered by a load_data() call (history {history[:pos + 1]})",
+                                                 dict(setting, pos=pos, altered=k)))
+                        frozen_digest = {k: d for k, d in frozen_digest.items() if k in dict.keys(rel.data)}
                     for k in dict.keys(rel.data):
                         if k not in frozen_digest:
                             frozen_digest[k] = digest(dict.__getitem__(rel.data, k))
@@ -228,7 +253,7 @@ class Engine:
                 prov_req = provenance(evs, prov, set(self.inputs))
                 pre = ()
                 mixed = False
-                if not onshell and req != "!freeze":
+                if not onshell and req not in ("!freeze", "!load"):
                     want = {}
                     for g, o in prov_req:
                         if g in want and want[g] != o:
